@@ -91,6 +91,8 @@ func genUserGo(d *jDump, o userOpts) string {
 	d.anyres = o.nilres
 	d.typed = o.typed // prodClasses / goTermType (also used when the tables are loaded into the model) follow it
 	cls := prodClasses(d)
+	namedSlices := map[string]string{}
+	var namedOrder []string
 	for _, r := range d.Rules {
 		if r.Kind != "not_generated" {
 			continue
@@ -112,6 +114,16 @@ func genUserGo(d *jDump, o userOpts) string {
 							break
 						}
 					}
+				}
+				if o.typed && strings.HasPrefix(ty, "[]") && (pi+i)%2 == 0 {
+					// assignable but not identical: a named slice type for a list term (the value must still arrive)
+					nm, ok := namedSlices[ty]
+					if !ok {
+						nm = fmt.Sprintf("L%d", len(namedSlices))
+						namedSlices[ty] = nm
+						namedOrder = append(namedOrder, ty)
+					}
+					ty = nm
 				}
 				params = append(params, fmt.Sprintf("a%d %s", i, ty))
 				args = append(args, fmt.Sprintf("a%d", i))
@@ -140,6 +152,9 @@ func genUserGo(d *jDump, o userOpts) string {
 				fmt.Fprintf(&sb, "type N%d Node\n\nfunc (n *N%d) Discard() bool { return (*Node)(n).Discard() }\n\n", r.Index, r.Index)
 			}
 		}
+	}
+	for _, ty := range namedOrder {
+		fmt.Fprintf(&sb, "type %s %s\n\n", namedSlices[ty], ty)
 	}
 	if o.bounds {
 		sb.WriteString("func (p *P) _onBounds(r any, b, e Token) {\n\tp.log = append(p.log, \"B=\"+ser(r)+\";\"+ser(b)+\";\"+ser(e))\n}\n")
